@@ -252,7 +252,7 @@ class SQLiteConnection(DBAPI):
     def _queryAddLimitOffset(cls, query, start, end):
         if not start:
             return "%s LIMIT %i" % (query, end)
-        if not end:
+        if end is None:
             return "%s LIMIT 0 OFFSET %i" % (query, start)
         return "%s LIMIT %i OFFSET %i" % (query, end - start, start)
 
